@@ -29,17 +29,18 @@ Definition dec (n : nat) : chars := s2l (print_dec (Z.of_nat n)).
 Definition named_dim (p : chars * nat) : chars := "["%char :: fst p ++ s2l " = " ++ dec (snd p) ++ ["]"%char].
 Definition anon_dim (n : nat) : chars := "["%char :: dec n ++ ["]"%char].
 
-(* _basetype: shape = var.shape[sequence:]; named dims -> zip(map(_quote, dims), shape); one unnamed dim -> [varname = n];
-   otherwise [n]... *)
+(* _basetype: shape = var.shape[sequence:]; dimension names that cover the shape (as many names as axes) ->
+   zip(map(_quote, dims), shape); otherwise one axis -> [varname = n], any other rank -> [n]...  (a variable whose names do not
+   cover its shape - a foreign DDS that names only some dimensions parses to one - is declared with its whole shape) *)
+Definition dims_cover (dims : list chars) (sh : list nat) : bool :=
+  match dims with [] => false | _ :: _ => Nat.eqb (List.length dims) (List.length sh) end.
 Definition print_dims (seq : nat) (name : chars) (dims : list chars) (shape : list nat) : chars :=
   let sh := skipn seq shape in
-  match dims with
-  | _ :: _ => flat_map named_dim (combine (map quote dims) sh)
-  | [] => match sh with
-          | [n] => named_dim (name, n)
-          | _ => flat_map anon_dim sh
-          end
-  end.
+  if dims_cover dims sh then flat_map named_dim (combine (map quote dims) sh)
+  else match sh with
+       | [n] => named_dim (name, n)
+       | _ => flat_map anon_dim sh
+       end.
 
 Fixpoint print_decl (lvl seq : nat) (t : dtree) : chars :=
   match t with
